@@ -59,6 +59,16 @@ def build(backend):
     # tree names that are not identifiers: the descriptor names the tree the job books and fills, character for character
     for tn in ("muon-tree", "run2.muons", "my tree", "t", "Tree_1", "muons/v1"):
         add(f"explicit-tree-name:{tn}", f"ResultTTree({per.format('(j.pt(), j.nTrk())')}, ['a', 'b'], {tn!r}, 'file.root')", ["a", "b"], [{"double"}, {"int"}])
+    # names outside ASCII, with every kind of neighbour after the non-ASCII character (hex digit, other letter, digit, nothing):
+    # the branch the job books carries the name character for character (in the file's encoding, UTF-8)
+    UNI = ["\u0394eta", "d\u03bc0", "\u0394phi", "\u00e91", "\u03bc", "\u0394R"]
+    for n1, n2 in itertools.permutations(UNI, 2):
+        (e1, t1), (e2, t2) = core[0], core[3]
+        add("dict2-unicode", per.format(f"{{'{n1}': {e1}, '{n2}': {e2}}}"), [n1, n2], [t1, t2])
+    for n1 in UNI:
+        (e1, t1), (e2, t2) = core[0], core[3]
+        add("explicit2-unicode", f"ResultTTree({per.format(f'({e1}, {e2})')}, ['{n1}', 'b'], 'mytree', 'file.root')", [n1, "b"], [t1, t2])
+        add(f"explicit-tree-name:{n1}", f"ResultTTree({per.format('(j.pt(), j.nTrk())')}, ['a', 'b'], 'jets_{n1}_tree', 'file.root')", ["a", "b"], [{"double"}, {"int"}])
     # explicit single name given as a bare string
     add("explicit1-str", f"ResultTTree({per.format('j.pt()')}, 'solo', 'mytree', 'file.root')", ["solo"], [{"double"}])
     # wrong label counts must raise
